@@ -274,6 +274,7 @@ void gp_fail_internal(
                         assert(_fmt); // loop should've ended after processing all specs
                         if (_fmt[1] != '%')
                             break;
+                        _fmt += 2; // literal percent sign
                     }
                     const char* spec = strpbrk(_fmt, "csdioxXufFeEgGp");
                     for (const char* _c = _fmt; _c < spec; _c++) if (*_c == '*')
